@@ -31,6 +31,8 @@ Inductive ihop :=
 | IFaultCrash (i : nat) (a c : nat)
                               (* the process died between the failing write and the end of the
                                  rollback: a / c bytes of the docs / meta block are in the files *)
+| IGroupBegin | IGroupEnd     (* the operations in between (IBulk / IFault, in lock order) were submitted
+                                 concurrently; the store answers once, at the end *)
 | IObs                        (* fetch + search in the running store, no restart *)
 | ICrashIn (i : nat) (k t kd km : nat)
 | IPower
@@ -45,6 +47,8 @@ Definition hops_of (bs : list bulk) (o : ihop) : list hop :=
   | IConc is => map (fun i => HBulk (nth i bs dummy_bulk)) is
   | IFault i fm cut _ => [HFault (nth i bs dummy_bulk) fm cut]
   | IFaultCrash i a c => [HFaultCrash (nth i bs dummy_bulk) a c]
+  | IGroupBegin => []
+  | IGroupEnd => []
   | IObs => []
   | ICrashIn i k t kd km => [HCrashIn (nth i bs dummy_bulk) k t kd km]
   | IPower => [HPower]
@@ -126,14 +130,18 @@ Section Run.
     | _ => d
     end.
 
-  Fixpoint run_obs (s : st) (h : list ihop) : list mobs * option (list fop) :=
+  Fixpoint run_obs (ing : bool) (s : st) (h : list ihop) : list mobs * option (list fop) :=
     match h with
     | [] => ([], Some [])
     | o :: r =>
         match run_from dm s (hops_of bs o) with
         | Ok s' =>
-            let '(l, f) := run_obs s' r in
-            let f' := option_map (fun x => step_ops o s s' ++ x) f in
+            let ing' := match o with IGroupBegin => true | IGroupEnd => false | _ => ing end in
+            let '(l, f) := run_obs ing' s' r in
+            let ops := step_ops o s s' in
+            let ops := if ing then filter (fun x => negb (is_ack x)) ops else ops in
+            let ops := match o, s_proc s with IGroupEnd, Some _ => ops ++ [Ack] | _, _ => ops end in
+            let f' := option_map (fun x => ops ++ x) f in
             match o, s_proc s' with
             | IRestart, Some p => (MUp (s_disk s') p :: l, f')
             | IObs, Some p => (MUp (s_disk s') p :: l, f')
@@ -163,7 +171,7 @@ Fixpoint forall2b {A B} (f : A -> B -> bool) (a : list A) (b : list B) : bool :=
 Definition case_agrees (c : case) : bool :=
   match c with
   | CHist bs h obs ops exts =>
-      let '(mo, fin) := run_obs bs st0 h in
+      let '(mo, fin) := run_obs bs false st0 h in
       forall2b (obs_agree bs) mo obs &&
       forallb (fun o => match o with IFault _ _ _ a => negb a | _ => true end) h &&
       match fin with
@@ -255,6 +263,8 @@ Fixpoint spec_walk (bs : list bulk) (h : list ihop) (obs : list iobs) (tr : trac
       else spec_walk bs r obs tr
   | IPower :: r => spec_walk bs r obs (Track false (acked tr) (tried tr) (pres tr) (abs tr))
   | IRestartCrash :: r => spec_walk bs r obs (Track false (acked tr) (tried tr) (pres tr) (abs tr))
+  | IGroupBegin :: r => spec_walk bs r obs tr
+  | IGroupEnd :: r => spec_walk bs r obs tr
   | IObs :: r =>
       if up tr then
         match obs with
